@@ -151,8 +151,23 @@ pub fn adt_fact<'tcx>(tcx: TyCtxt<'tcx>, did: DefId) -> J {
         ]));
     }
     let (file, line, _) = loc(tcx, tcx.def_span(did));
+    // full item source (for inert helper attributes such as #[serde(..)] on variants and fields)
+    let src = did
+        .as_local()
+        .map(|l| {
+            let hid = tcx.local_def_id_to_hir_id(l);
+            tcx.sess.source_map().span_to_snippet(tcx.hir_span_with_body(hid)).unwrap_or_default()
+        })
+        .unwrap_or_default();
+    let serde_attrs: Vec<J> = src
+        .lines()
+        .map(|l| l.trim())
+        .filter(|l| l.starts_with("#[serde") || l.starts_with("#![serde"))
+        .map(|l| J::s(l))
+        .collect();
     J::obj(vec![
         ("k", J::s("adt")),
+        ("serde_attrs", J::Arr(serde_attrs)),
         ("key", J::s(key(tcx, did))),
         ("kind", J::s(if adt.is_enum() { "enum" } else if adt.is_struct() { "struct" } else { "union" })),
         ("vis", J::s(format!("{:?}", tcx.visibility(did)))),
